@@ -92,7 +92,7 @@ theorem sub_one_num (cnt : Val) (q : Rat) (fl : Bool) (h : cnt.asNum = some (q, 
 
 /-! ## loop frames -/
 
-variable {img : Image} {stk : List Frame} {un : List Val} {σ : S} {s : State} {pc : Nat}
+variable {img : Image} {K : Ctx} {stk : List Frame} {un : List Val} {σ : S} {s : State} {pc : Nat}
 
 def putVar (vars : List (LoopVar × Val)) (l : LoopVar) (v : Val) : List (LoopVar × Val) :=
   if vars.any (·.1 == l) then vars.map fun (k, x) => if k == l then (k, v) else (k, x)
@@ -141,8 +141,8 @@ theorem getVar_putVar (vars : List (LoopVar × Val)) (l : LoopVar) (v : Val) :
   · rename_i h; exact getVar_map vars l v h
   · rename_i h; exact getVar_append vars l v (Bool.eq_false_iff.mpr h)
 
-theorem SimU.setStack (h : SimU stk un σ s) (stk' : List Frame) (hl : LoopsOnly stk') :
-    SimU stk' un σ { s with stack := stk' } :=
+theorem SimU.setStack (h : SimU K stk un σ s) (stk' : List Frame) (hl : LoopsOnly stk') :
+    SimU K stk' un σ { s with stack := stk' ++ baseOf K σ.locals } :=
   ⟨h.running, rfl, hl, h.eval, h.unnamed, h.locals, h.status, h.globals, h.constants,
     h.lights, h.trace, h.defaultColor, h.matrix, h.draws, h.regs⟩
 
@@ -155,24 +155,24 @@ theorem loopsOnly_cons (vars : List (LoopVar × Val)) (ht : Nat) (hl : LoopsOnly
   · exact hl f hf
 
 /-- `LOOP`: a fresh loop frame -/
-theorem exec_loop (h : SimU stk un σ s) (hpc : s.pc = (pc : Int)) (hi : img.code[pc]? = some .loop) :
-    Exec img s (At (pc + 1) (.loop [] 0 :: stk) un σ) := by
+theorem exec_loop (h : SimU K stk un σ s) (hpc : s.pc = (pc : Int)) (hi : img.code[pc]? = some .loop) :
+    Exec img s (At K (pc + 1) (.loop [] 0 :: stk) un σ) := by
   apply Exec.step h.running
   apply Exec.done
-  rw [step_eq _ { s with stack := .loop [] 0 :: stk } h.running hpc hi rfl
-    (by simp only [execInstr, h.eval, h.stack, List.length_nil]) h.running]
+  rw [step_eq _ { s with stack := (.loop [] 0 :: stk) ++ baseOf K σ.locals } h.running hpc hi rfl
+    (by simp only [execInstr, h.eval, h.stack, List.length_nil, List.cons_append]) h.running]
   refine ⟨?_, (h.setStack _ (loopsOnly_cons [] 0 h.loops)).setPc _⟩
   show s.pc + 1 = _
   rw [hpc]; omega
 
 /-- `END_LOOP`: the frame is dropped -/
-theorem exec_endLoop (vars : List (LoopVar × Val)) (ht : Nat) (h : SimU (.loop vars ht :: stk) un σ s)
+theorem exec_endLoop (vars : List (LoopVar × Val)) (ht : Nat) (h : SimU K (.loop vars ht :: stk) un σ s)
     (hpc : s.pc = (pc : Int)) (hi : img.code[pc]? = some .endLoop) :
-    Exec img s (At (pc + 1) stk un σ) := by
+    Exec img s (At K (pc + 1) stk un σ) := by
   apply Exec.step h.running
   apply Exec.done
-  rw [step_eq _ { s with stack := stk } h.running hpc hi rfl
-    (by simp only [execInstr, h.stack, h.eval, trimEval, List.drop_nil]) h.running]
+  rw [step_eq _ { s with stack := stk ++ baseOf K σ.locals } h.running hpc hi rfl
+    (by simp only [execInstr, h.stack, h.eval, trimEval, List.drop_nil, List.cons_append]) h.running]
   refine ⟨?_, (h.setStack _ h.loops.cons.2).setPc _⟩
   show s.pc + 1 = _
   rw [hpc]; omega
@@ -219,10 +219,10 @@ theorem step_popCounter (img : Image) (s : State) (pc : Nat) (v : Val) (rest : L
 
 /-- `counter > 0` into `result` -/
 theorem exec_counterTest (vars : List (LoopVar × Val)) (ht : Nat) (cnt : Val) (q : Rat) (fl : Bool)
-    (h : SimU (.loop vars ht :: stk) un σ s) (hpc : s.pc = (pc : Int))
+    (h : SimU K (.loop vars ht :: stk) un σ s) (hpc : s.pc = (pc : Int))
     (hc : CodeAt img pc counterTest) (hcnt : getVar vars .counter = cnt)
     (hnum : cnt.asNum = some (q, fl)) :
-    Exec img s (fun t => At (pc + 4) (.loop vars ht :: stk) un σ t ∧
+    Exec img s (fun t => At K (pc + 4) (.loop vars ht :: stk) un σ t ∧
       t.regs .result = .bool (decide (0 < q))) := by
   have hne : cnt = .none → False := by rintro rfl; simp [Val.asNum] at hnum
   simp only [counterTest, testOp] at hc
@@ -245,10 +245,10 @@ theorem exec_counterTest (vars : List (LoopVar × Val)) (ht : Nat) (cnt : Val) (
 
 /-- `counter := counter - 1` -/
 theorem exec_loopPost (vars : List (LoopVar × Val)) (ht : Nat) (cnt c' : Val)
-    (h : SimU (.loop vars ht :: stk) un σ s) (hpc : s.pc = (pc : Int))
+    (h : SimU K (.loop vars ht :: stk) un σ s) (hpc : s.pc = (pc : Int))
     (hc : CodeAt img pc (loopPost none)) (hcnt : getVar vars .counter = cnt)
     (hne : cnt = .none → False) (hsub : binVal .sub cnt (.int 1) = some c') :
-    Exec img s (At (pc + 4) (.loop (putVar vars .counter c') ht :: stk) un σ) := by
+    Exec img s (At K (pc + 4) (.loop (putVar vars .counter c') ht :: stk) un σ) := by
   simp only [loopPost, List.append_nil] at hc
   have hrd : s.read (.loopVar .counter) = cnt := by
     simp only [State.read, getLoopVar_top vars ht h.stack, hcnt]
@@ -259,8 +259,8 @@ theorem exec_loopPost (vars : List (LoopVar × Val)) (ht : Nat) (cnt c' : Val)
     (step_binop img _ (pc + 1 + 1) .sub cnt (.int 1) c' s.eval (by exact h.running) rfl
       hc.tail.tail.head rfl hsub) ?_
   refine Exec.next (by exact h.running)
-    (step_popCounter img _ (pc + 1 + 1 + 1) c' s.eval vars ht stk (by exact h.running) rfl
-      hc.tail.tail.tail.head rfl (by exact h.stack)) ?_
+    (step_popCounter img _ (pc + 1 + 1 + 1) c' s.eval vars ht (stk ++ baseOf K σ.locals)
+      (by exact h.running) rfl hc.tail.tail.tail.head rfl (by exact h.stack)) ?_
   apply Exec.done
   refine ⟨rfl, ?_⟩
   exact ⟨h.running, rfl, loopsOnly_cons _ _ h.loops.cons.2, h.eval, h.unnamed, h.locals, h.status,
@@ -268,14 +268,15 @@ theorem exec_loopPost (vars : List (LoopVar × Val)) (ht : Nat) (cnt c' : Val)
 
 /-- `repeat n`: the count goes into the loop frame -/
 theorem exec_toCounter (v : Rv) (hv : RvOK v) (vars : List (LoopVar × Val)) (ht : Nat)
-    (h : SimU (.loop vars ht :: stk) un σ s) (hpc : s.pc = (pc : Int))
+    (h : SimU K (.loop vars ht :: stk) un σ s) (hpc : s.pc = (pc : Int))
     (hc : CodeAt img pc (genRv v (.to counter)))
     {f : Nat} {x : Val} {σ' : S} (hev : evalRv f v σ = .ok (x, σ')) :
-    σ' = σ ∧ Exec img s (At (pc + (genRv v (.to counter)).length)
+    σ' = σ ∧ Exec img s (At K (pc + (genRv v (.to counter)).length)
       (.loop (putVar vars .counter x) ht :: stk) un σ) := by
-  have hput : s.put counter x = { s with stack := .loop (putVar vars .counter x) ht :: stk } := by
+  have hput : s.put counter x =
+      { s with stack := (.loop (putVar vars .counter x) ht :: stk) ++ baseOf K σ.locals } := by
     simp only [counter, State.put]
-    exact putLoopVar_top vars ht h.stack _ _
+    exact putLoopVar_top (stk := stk ++ baseOf K σ.locals) vars ht h.stack _ _
   obtain ⟨rfl, hrun⟩ := run_genRv v hv counter (by simp [counter]) h hpc hc hev
     (by rw [hput]; exact h.running)
   refine ⟨rfl, Exec.of_run _ hrun ⟨rfl, ?_⟩⟩
@@ -307,7 +308,7 @@ theorem resolve_assembleLoop (pre test bodyPre : List Instr) (body : Code) (post
   simp only [Nat.zero_add, e2]
   rw [Nat.add_assoc pc]
 
-variable {img : Image}
+variable {img : Image} {K : Ctx}
 
 /-! ## iteration -/
 
@@ -380,9 +381,9 @@ theorem semTest_error {c : Option Rv} (hc : CondOK c) (f : Nat) (σ : S) (o : Ou
 
 /-- the test of a `while` loop: the truth of the condition goes to `result` -/
 theorem exec_test {stk : List Frame} {σ : S} {s : State} {pc : Nat} (c : Option Rv) (hcnd : CondOK c)
-    (h : Sim stk σ s) (hpc : s.pc = (pc : Int)) (hc : CodeAt img pc (testCode c))
+    (h : Sim K stk σ s) (hpc : s.pc = (pc : Int)) (hc : CodeAt img pc (testCode c))
     {f : Nat} {b : Bool} {σ' : S} (hev : semTest f c σ = .ok (b, σ')) :
-    σ' = σ ∧ Exec img s (fun t => At (pc + (testCode c).length) stk [] σ t ∧
+    σ' = σ ∧ Exec img s (fun t => At K (pc + (testCode c).length) stk [] σ t ∧
       (t.regs .result).truthy = b) := by
   cases c with
   | none =>
@@ -408,11 +409,11 @@ theorem exec_test {stk : List Frame} {σ : S} {s : State} {pc : Nat} (c : Option
     · simp at hev
 
 /-- `repeat while c` / `repeat`: from the test on, with the loop frame in place -/
-def WhileIter (img : Image) (f : Nat) : Prop :=
+def WhileIter (img : Image) (K : Ctx) (f : Nat) : Prop :=
   ∀ (c : Option Rv) (body : Block), CondOK c → FragBlock body →
   ∀ (σ σ' : S) (o : Outcome) (s : State) (top : Nat) (stk : List Frame)
     (vars : List (LoopVar × Val)) (ht : Nat) (off : Int),
-    Sim (.loop vars ht :: stk) σ s → s.pc = (top : Int) →
+    Sim K (.loop vars ht :: stk) σ s → s.pc = (top : Int) →
     CodeAt img top (testCode c ++ [.jump .ifFalse (((genBlock body).length : Nat) + 2)] ++
       resolve (genBlock body) (top + (testCode c).length + 1)
         ((top + (testCode c).length + 1 + (genBlock body).length + 1 : Nat) : Int) ++
@@ -420,14 +421,14 @@ def WhileIter (img : Image) (f : Nat) : Prop :=
     ((top + (testCode c).length + 1 + (genBlock body).length : Nat) : Int) + off = (top : Int) →
     execWhile f c body σ = (o, σ') → (o = .normal ∨ o = .brk) →
     o = .normal ∧
-      Exec img s (At (top + (testCode c).length + 1 + (genBlock body).length + 1 + 1) stk [] σ')
+      Exec img s (At K (top + (testCode c).length + 1 + (genBlock body).length + 1 + 1) stk [] σ')
 
-theorem while_zero : WhileIter img 0 := by
+theorem while_zero : WhileIter img K 0 := by
   intro c body _ _ σ σ' o s top stk vars ht off _ _ _ _ h ho
   simp only [execWhile, Prod.mk.injEq] at h
   rcases ho with rfl | rfl <;> simp at h
 
-theorem while_step (f : Nat) (ihB : BlockGoal img f) (ihW : WhileIter img f) : WhileIter img (f + 1) := by
+theorem while_step (f : Nat) (ihB : BlockGoal img K f) (ihW : WhileIter img K f) : WhileIter img K (f + 1) := by
   intro c body hcnd hb σ σ' o s top stk vars ht off sim hpc hc hoff h ho
   rw [execWhile_succ] at h
   have hct := hc.left.left.left.left
@@ -452,28 +453,28 @@ theorem while_step (f : Nat) (ihB : BlockGoal img f) (ihW : WhileIter img f) : W
     exact exec_endLoop vars ht ht1.2 ht1.1 (idx hce)
   · rename_i s1 he
     obtain ⟨rfl, hex⟩ := exec_test c hcnd sim hpc hct he
-    have hjmp : ∀ t0, (At (top + (testCode c).length) (.loop vars ht :: stk) [] s1 t0 ∧
+    have hjmp : ∀ t0, (At K (top + (testCode c).length) (.loop vars ht :: stk) [] s1 t0 ∧
         (t0.regs .result).truthy = true) →
-        Exec img t0 (At (top + (testCode c).length + 1) (.loop vars ht :: stk) [] s1) := by
+        Exec img t0 (At K (top + (testCode c).length + 1) (.loop vars ht :: stk) [] s1) := by
       intro t0 ⟨ht0, hres⟩
       exact exec_jump .ifFalse _ _ (by simp) ht0.2 ht0.1 hcj (by simp [hres])
     rcases loopBody_cases h ho with ⟨s2, hbody, hrest⟩ | ⟨hbody, rfl⟩
-    · have hback : ∀ t2, At (top + (testCode c).length + 1 + (genBlock body).length)
-          (.loop vars ht :: stk) [] s2 t2 → Exec img t2 (At top (.loop vars ht :: stk) [] s2) := by
+    · have hback : ∀ t2, At K (top + (testCode c).length + 1 + (genBlock body).length)
+          (.loop vars ht :: stk) [] s2 t2 → Exec img t2 (At K top (.loop vars ht :: stk) [] s2) := by
         intro t2 ht2
         exact exec_jump .always off top (by simp) ht2.2 ht2.1 (idx hcjb) (by simpa using hoff)
-      have hbodyEx : ∀ t1, At (top + (testCode c).length + 1) (.loop vars ht :: stk) [] s1 t1 →
-          Exec img t1 (At (top + (testCode c).length + 1 + (genBlock body).length)
+      have hbodyEx : ∀ t1, At K (top + (testCode c).length + 1) (.loop vars ht :: stk) [] s1 t1 →
+          Exec img t1 (At K (top + (testCode c).length + 1 + (genBlock body).length)
             (.loop vars ht :: stk) [] s2) := by
         intro t1 ht1
         exact ihB body hb s1 s2 .normal t1 _ _ _ ht1.2 ht1.1 (cat hcb) hbody (Or.inl rfl)
       -- the rest of the loop, from the test again
-      have hrestEx : ∀ t3, At top (.loop vars ht :: stk) [] s2 t3 →
+      have hrestEx : ∀ t3, At K top (.loop vars ht :: stk) [] s2 t3 →
           o = .normal ∧ Exec img t3
-            (At (top + (testCode c).length + 1 + (genBlock body).length + 1 + 1) stk [] σ') := by
+            (At K (top + (testCode c).length + 1 + (genBlock body).length + 1 + 1) stk [] σ') := by
         intro t3 ht3
         exact ihW c body hcnd hb s2 σ' o t3 top stk vars ht off ht3.2 ht3.1 hc hoff hrest ho
-      obtain ⟨t3, ht3⟩ : ∃ t3, At top (.loop vars ht :: stk) [] s2 t3 := by
+      obtain ⟨t3, ht3⟩ : ∃ t3, At K top (.loop vars ht :: stk) [] s2 t3 := by
         obtain ⟨k, hk⟩ := ((hex.trans hjmp).trans hbodyEx).trans hback
         exact ⟨_, hk⟩
       refine ⟨(hrestEx t3 ht3).1, ?_⟩
@@ -488,11 +489,11 @@ theorem while_step (f : Nat) (ihB : BlockGoal img f) (ihW : WhileIter img f) : W
 
 
 /-- `repeat n`: from the test on, with the counter in the loop frame -/
-def CountIter (img : Image) (f : Nat) : Prop :=
+def CountIter (img : Image) (K : Ctx) (f : Nat) : Prop :=
   ∀ (body : Block), FragBlock body →
   ∀ (σ σ' : S) (o : Outcome) (s : State) (top : Nat) (stk : List Frame)
     (vars : List (LoopVar × Val)) (ht : Nat) (cnt : Val) (q : Rat) (fl : Bool) (off : Int),
-    Sim (.loop vars ht :: stk) σ s → s.pc = (top : Int) →
+    Sim K (.loop vars ht :: stk) σ s → s.pc = (top : Int) →
     getVar vars .counter = cnt → cnt.asNum = some (q, fl) →
     CodeAt img top (counterTest ++ [.jump .ifFalse (((genBlock body).length + 4 : Nat) + 2)] ++
       (resolve (genBlock body) (top + 5) ((top + 5 + (genBlock body).length + 4 + 1 : Nat) : Int) ++
@@ -500,14 +501,14 @@ def CountIter (img : Image) (f : Nat) : Prop :=
       [.jump .always off] ++ [.endLoop]) →
     ((top + 5 + (genBlock body).length + 4 : Nat) : Int) + off = (top : Int) →
     execPasses f (List.replicate (passes q) []) body σ = (o, σ') → (o = .normal ∨ o = .brk) →
-    o = .normal ∧ Exec img s (At (top + 5 + (genBlock body).length + 4 + 1 + 1) stk [] σ')
+    o = .normal ∧ Exec img s (At K (top + 5 + (genBlock body).length + 4 + 1 + 1) stk [] σ')
 
-theorem count_zero : CountIter img 0 := by
+theorem count_zero : CountIter img K 0 := by
   intro body _ σ σ' o s top stk vars ht cnt q fl off _ _ _ _ _ _ h ho
   simp only [execPasses, Prod.mk.injEq] at h
   rcases ho with rfl | rfl <;> simp at h
 
-theorem count_step (f : Nat) (ihB : BlockGoal img f) (ihC : CountIter img f) : CountIter img (f + 1) := by
+theorem count_step (f : Nat) (ihB : BlockGoal img K f) (ihC : CountIter img K f) : CountIter img K (f + 1) := by
   intro body hb σ σ' o s top stk vars ht cnt q fl off sim hpc hcnt hnum hc hoff h ho
   have hct := hc.left.left.left.left
   have hcj := hc.left.left.left.right.head
@@ -525,35 +526,35 @@ theorem count_step (f : Nat) (ihB : BlockGoal img f) (ihC : CountIter img f) : C
   · -- one more pass
     rw [passes_pos q hq, List.replicate_succ, execPasses_succ] at h
     simp only [List.foldl_nil] at h
-    have hjmp : ∀ t0, (At (top + 4) (.loop vars ht :: stk) [] σ t0 ∧
+    have hjmp : ∀ t0, (At K (top + 4) (.loop vars ht :: stk) [] σ t0 ∧
         t0.regs .result = .bool (decide (0 < q))) →
-        Exec img t0 (At (top + 5) (.loop vars ht :: stk) [] σ) := by
+        Exec img t0 (At K (top + 5) (.loop vars ht :: stk) [] σ) := by
       intro t0 ⟨ht0, hres⟩
       exact exec_jump .ifFalse _ _ (by simp) ht0.2 ht0.1 (idx hcj)
         (by simp [hres, hq, Val.truthy]; omega)
     rcases loopBody_cases h ho with ⟨s2, hbody, hrest⟩ | ⟨hbody, rfl⟩
     · obtain ⟨c1, fl1, hsub1, hc1⟩ := sub_one_num cnt q fl hnum
-      have hbodyEx : ∀ t1, At (top + 5) (.loop vars ht :: stk) [] σ t1 →
-          Exec img t1 (At (top + 5 + (genBlock body).length) (.loop vars ht :: stk) [] s2) := by
+      have hbodyEx : ∀ t1, At K (top + 5) (.loop vars ht :: stk) [] σ t1 →
+          Exec img t1 (At K (top + 5 + (genBlock body).length) (.loop vars ht :: stk) [] s2) := by
         intro t1 ht1
         exact ihB body hb σ s2 .normal t1 _ _ _ ht1.2 ht1.1 (cat hcb) hbody (Or.inl rfl)
-      have hpostEx : ∀ t2, At (top + 5 + (genBlock body).length) (.loop vars ht :: stk) [] s2 t2 →
-          Exec img t2 (At (top + 5 + (genBlock body).length + 4)
+      have hpostEx : ∀ t2, At K (top + 5 + (genBlock body).length) (.loop vars ht :: stk) [] s2 t2 →
+          Exec img t2 (At K (top + 5 + (genBlock body).length + 4)
             (.loop (putVar vars .counter c1) ht :: stk) [] s2) := by
         intro t2 ht2
         exact exec_loopPost vars ht cnt c1 ht2.2 ht2.1 (cat hcp) hcnt hne hsub1
-      have hback : ∀ t3, At (top + 5 + (genBlock body).length + 4)
+      have hback : ∀ t3, At K (top + 5 + (genBlock body).length + 4)
           (.loop (putVar vars .counter c1) ht :: stk) [] s2 t3 →
-          Exec img t3 (At top (.loop (putVar vars .counter c1) ht :: stk) [] s2) := by
+          Exec img t3 (At K top (.loop (putVar vars .counter c1) ht :: stk) [] s2) := by
         intro t3 ht3
         exact exec_jump .always off top (by simp) ht3.2 ht3.1 (idx hcjb) (by simpa using hoff)
-      have hrestEx : ∀ t4, At top (.loop (putVar vars .counter c1) ht :: stk) [] s2 t4 →
-          o = .normal ∧ Exec img t4 (At (top + 5 + (genBlock body).length + 4 + 1 + 1) stk [] σ') := by
+      have hrestEx : ∀ t4, At K top (.loop (putVar vars .counter c1) ht :: stk) [] s2 t4 →
+          o = .normal ∧ Exec img t4 (At K (top + 5 + (genBlock body).length + 4 + 1 + 1) stk [] σ') := by
         intro t4 ht4
         exact ihC body hb s2 σ' o t4 top stk _ ht c1 (q - 1) fl1 off ht4.2 ht4.1
           (getVar_putVar vars .counter c1) hc1 hc hoff hrest ho
       have hall := (((hex.trans hjmp).trans hbodyEx).trans hpostEx).trans hback
-      obtain ⟨t4, ht4⟩ : ∃ t4, At top (.loop (putVar vars .counter c1) ht :: stk) [] s2 t4 := by
+      obtain ⟨t4, ht4⟩ : ∃ t4, At K top (.loop (putVar vars .counter c1) ht :: stk) [] s2 t4 := by
         obtain ⟨k, hk⟩ := hall
         exact ⟨_, hk⟩
       exact ⟨(hrestEx t4 ht4).1, hall.trans fun t ht => (hrestEx t ht).2⟩
@@ -580,27 +581,27 @@ theorem assembleLoop_length (pre test bodyPre : List Instr) (body : Code) (post 
   rw [← resolve_length _ 0 0, resolve_assembleLoop]
   simp only [List.length_append, List.length_cons, List.length_nil, resolve_length]
 
-def LoopGoal (img : Image) (f : Nat) : Prop :=
+def LoopGoal (img : Image) (K : Ctx) (f : Nat) : Prop :=
   ∀ (hd : LoopHdr) (body : Block), LoopHdrOK hd → FragBlock body →
   ∀ (σ σ' : S) (o : Outcome) (s : State) (pc exit : Nat) (stk : List Frame),
-    Sim stk σ s → s.pc = (pc : Int) →
+    Sim K stk σ s → s.pc = (pc : Int) →
     CodeAt img pc (resolve (genLoop hd (genBlock body)) pc exit) →
     execLoop f hd body σ = (o, σ') → (o = .normal ∨ o = .brk) →
-    o = .normal ∧ Exec img s (At (pc + (genLoop hd (genBlock body)).length) stk [] σ')
+    o = .normal ∧ Exec img s (At K (pc + (genLoop hd (genBlock body)).length) stk [] σ')
 
-theorem loop_zero : LoopGoal img 0 := by
+theorem loop_zero : LoopGoal img K 0 := by
   intro hd body _ _ σ σ' o s pc exit stk _ _ _ h ho
   simp only [execLoop, Prod.mk.injEq] at h
   rcases ho with rfl | rfl <;> simp at h
 
 /-- `repeat while c` and `repeat`: frame, iterations, frame dropped -/
-theorem loop_while (f : Nat) (ihW : WhileIter img f) (c : Option Rv) (hcnd : CondOK c) (body : Block)
+theorem loop_while (f : Nat) (ihW : WhileIter img K f) (c : Option Rv) (hcnd : CondOK c) (body : Block)
     (hb : FragBlock body) (σ σ' : S) (o : Outcome) (s : State) (pc exit : Nat) (stk : List Frame)
-    (sim : Sim stk σ s) (hpc : s.pc = (pc : Int))
+    (sim : Sim K stk σ s) (hpc : s.pc = (pc : Int))
     (hc : CodeAt img pc (resolve (assembleLoop [] (testCode c) [] (genBlock body) []) pc exit))
     (h : execWhile f c body σ = (o, σ')) (ho : o = .normal ∨ o = .brk) :
     o = .normal ∧
-      Exec img s (At (pc + (assembleLoop [] (testCode c) [] (genBlock body) []).length) stk [] σ') := by
+      Exec img s (At K (pc + (assembleLoop [] (testCode c) [] (genBlock body) []).length) stk [] σ') := by
   rw [resolve_assembleLoop] at hc
   rw [assembleLoop_length]
   simp only [List.append_nil, List.nil_append, List.length_nil, Nat.add_zero, Nat.zero_add] at hc ⊢
@@ -618,10 +619,10 @@ theorem loop_while (f : Nat) (ihW : WhileIter img f) (c : Option Rv) (hcnd : Con
         pc + 1 + (testCode c).length + 1 + (genBlock body).length + 1 := by omega
     rw [e1, e2] at h2
     exact h2
-  have hiter := fun t (ht : At (pc + 1) (.loop [] 0 :: stk) [] σ t) =>
+  have hiter := fun t (ht : At K (pc + 1) (.loop [] 0 :: stk) [] σ t) =>
     ihW c body hcnd hb σ σ' o t (pc + 1) stk [] 0 _ ht.2 ht.1 hrest (by omega) h ho
   have hl := exec_loop sim hpc hloop
-  obtain ⟨t, ht⟩ : ∃ t, At (pc + 1) (.loop [] 0 :: stk) [] σ t := by
+  obtain ⟨t, ht⟩ : ∃ t, At K (pc + 1) (.loop [] 0 :: stk) [] σ t := by
     obtain ⟨k, hk⟩ := hl; exact ⟨_, hk⟩
   refine ⟨(hiter t ht).1, (hl.trans fun t ht => (hiter t ht).2).mono fun t2 ht2 => ⟨?_, ht2.2⟩⟩
   rw [ht2.1]; congr 1; omega
@@ -632,13 +633,13 @@ theorem range_map_nil (k : Nat) :
   rw [List.map_const', List.length_range]
 
 /-- `repeat n`: frame, the count into the frame, the passes, frame dropped -/
-theorem loop_count (f : Nat) (ihC : CountIter img f) (n : Rv) (hn : RvOK n) (body : Block)
+theorem loop_count (f : Nat) (ihC : CountIter img K f) (n : Rv) (hn : RvOK n) (body : Block)
     (hb : FragBlock body) (σ σ' : S) (o : Outcome) (s : State) (pc exit : Nat) (stk : List Frame)
-    (sim : Sim stk σ s) (hpc : s.pc = (pc : Int))
+    (sim : Sim K stk σ s) (hpc : s.pc = (pc : Int))
     (hc : CodeAt img pc (resolve (genLoop (.count n) (genBlock body)) pc exit))
     (h : execLoop (f + 1) (.count n) body σ = (o, σ')) (ho : o = .normal ∨ o = .brk) :
     o = .normal ∧
-      Exec img s (At (pc + (genLoop (.count n) (genBlock body)).length) stk [] σ') := by
+      Exec img s (At K (pc + (genLoop (.count n) (genBlock body)).length) stk [] σ') := by
   simp only [genLoop] at hc ⊢
   rw [resolve_assembleLoop] at hc
   rw [assembleLoop_length]
@@ -691,17 +692,17 @@ theorem loop_count (f : Nat) (ihC : CountIter img f) (n : Rv) (hn : RvOK n) (bod
         rw [e3] at hh
         exact hh
       have hl := exec_loop sim hpc hloop
-      have hcnt := fun t (ht : At (pc + 1) (.loop [] 0 :: stk) [] σ t) =>
+      have hcnt := fun t (ht : At K (pc + 1) (.loop [] 0 :: stk) [] σ t) =>
         exec_toCounter n hn [] 0 ht.2 ht.1 hpre he
-      obtain ⟨t, ht⟩ : ∃ t, At (pc + 1) (.loop [] 0 :: stk) [] σ t := by
+      obtain ⟨t, ht⟩ : ∃ t, At K (pc + 1) (.loop [] 0 :: stk) [] σ t := by
         obtain ⟨k, hk⟩ := hl; exact ⟨_, hk⟩
       obtain ⟨rfl, _⟩ := hcnt t ht
-      have hiter := fun t (ht : At (pc + 1 + (genRv n (.to counter)).length)
+      have hiter := fun t (ht : At K (pc + 1 + (genRv n (.to counter)).length)
           (.loop (putVar [] .counter x) 0 :: stk) [] σ1 t) =>
         ihC body hb σ1 σ' o t _ stk _ 0 x q fl _ ht.2 ht.1 (getVar_putVar [] .counter x) hnum hrest
           (by omega) h' ho
       have hall := hl.trans fun t ht => (hcnt t ht).2
-      obtain ⟨t2, ht2⟩ : ∃ t2, At (pc + 1 + (genRv n (.to counter)).length)
+      obtain ⟨t2, ht2⟩ : ∃ t2, At K (pc + 1 + (genRv n (.to counter)).length)
           (.loop (putVar [] .counter x) 0 :: stk) [] σ1 t2 := by
         obtain ⟨k, hk⟩ := hall; exact ⟨_, hk⟩
       refine ⟨(hiter t2 ht2).1, (hall.trans fun t ht => (hiter t ht).2).mono fun t3 ht3 => ⟨?_, ht3.2⟩⟩
@@ -710,7 +711,7 @@ theorem loop_count (f : Nat) (ihC : CountIter img f) (n : Rv) (hn : RvOK n) (bod
       obtain ⟨rfl, rfl⟩ := h
       rcases ho with h | h <;> simp at h
 
-theorem loop_step (f : Nat) (ihW : WhileIter img f) (ihC : CountIter img f) : LoopGoal img (f + 1) := by
+theorem loop_step (f : Nat) (ihW : WhileIter img K f) (ihC : CountIter img K f) : LoopGoal img K (f + 1) := by
   intro hd body hhd hb σ σ' o s pc exit stk sim hpc hc h ho
   cases hd with
   | forever =>
@@ -722,8 +723,8 @@ theorem loop_step (f : Nat) (ihW : WhileIter img f) (ihC : CountIter img f) : Lo
   | count n => exact loop_count f ihC n hhd body hb σ σ' o s pc exit stk sim hpc hc h ho
   | _ => exact absurd hhd (by simp [LoopHdrOK])
 
-theorem stmt_repeat (f : Nat) (ihL : LoopGoal img f) (hd : LoopHdr) (body : Block) (hhd : LoopHdrOK hd)
-    (hb : FragBlock body) : StmtGoal img (.repeat_ hd body) (f + 1) := by
+theorem stmt_repeat (f : Nat) (ihL : LoopGoal img K f) (hd : LoopHdr) (body : Block) (hhd : LoopHdrOK hd)
+    (hb : FragBlock body) : StmtGoal img K (.repeat_ hd body) (f + 1) := by
   intro σ σ' o s pc exit stk sim hpc hc h ho
   simp only [genStmt] at hc ⊢
   simp only [execStmt] at h
